@@ -306,6 +306,20 @@ pub fn run(ctx: &Ctx) -> Report {
             singles.push((q, exp));
         }
     }
+    {
+        // an escape sign followed by multi-byte characters (char-boundary arithmetic)
+        let units = ["", "a", "4", "G", "%", "é", "€", "😀", "\u{80}", "\u{7ff}"];
+        for x in units {
+            for y in units {
+                for z in ["", "b", "é"] {
+                    for q in [format!("k=v%{}{}{}", x, y, z), format!("k%{}{}{}=v", x, y, z), format!("{}%{}{}", z, x, y)] {
+                        let exp = parse_query(&q).ok().map(|p| canon_query(&p));
+                        singles.push((q, exp));
+                    }
+                }
+            }
+        }
+    }
     for tmpl in ["a=1&b=2", "ab=cd", "a%20b=c%2Fd"] {
         for pos in 0..=tmpl.len() {
             for bad in ["%", "%4", "%zz", "%g0", "%0g"] {
@@ -334,6 +348,46 @@ pub fn run(ctx: &Ctx) -> Report {
         st.sample(i, n_c, || json!({"query": q, "expected": exp}));
     });
     st = st.merge(st_c);
+
+    // (c') many parameters: repeated names with many values (sorting algorithms change behaviour above
+    //      small sizes; the map's iteration order feeds the sort)
+    {
+        let names_pool = ["tag", "a", "a-", "a0", "b", "A", "", "z%"];
+        let mut big: Vec<(String, String)> = Vec::new();
+        for n in [21usize, 22, 24, 33, 50, 64, 100, 257] {
+            for k in [1usize, 2, 3, 8] {
+                for order in 0..4 {
+                    let mut pairs: Vec<(Vec<u8>, Vec<u8>)> = (0..n)
+                        .map(|i| (names_pool[i % k].as_bytes().to_vec(), format!("v{:03}", (i * 7919) % 1000).into_bytes()))
+                        .collect();
+                    match order {
+                        0 => {}
+                        1 => pairs.reverse(),
+                        2 => pairs.rotate_left(n / 3),
+                        _ => {
+                            let (a, b): (Vec<_>, Vec<_>) = pairs.iter().cloned().enumerate().partition(|(i, _)| i % 2 == 0);
+                            pairs = a.into_iter().chain(b.into_iter().rev()).map(|(_, p)| p).collect();
+                        }
+                    }
+                    let q = pairs.iter().map(|(k, v)| format!("{}={}", pct::encode(k), pct::encode(v))).collect::<Vec<_>>().join("&");
+                    big.push((q, canon_query(&pairs)));
+                }
+            }
+        }
+        let repeats = 16u64;
+        let n_big = big.len() as u64 * repeats;
+        let base_big = base_c + n_c + 5000;
+        let st_big = par_sweep(n_big, |i, st| {
+            let (q, exp) = &big[(i / repeats) as usize];
+            let ok = eval(base_big + i, q, Some(exp), st);
+            if i % repeats == 0 {
+                st.nontrivial(q);
+                st.state(exp);
+            }
+            st.outcome(if ok { "many-params:agree" } else { "many-params:DISAGREE" });
+        });
+        st = st.merge(st_big);
+    }
 
     // (d) hash-seed independence: exhaust iteration orders of the crate's own map
     let order_queries: Vec<String> = {
@@ -460,7 +514,7 @@ pub fn run(ctx: &Ctx) -> Report {
     Report {
         stats: st,
         rule: format!(
-            "(a) every ordered list of 0..={} parameters over {} names x {} values (all permutations included), compared with the reference canonical string computed from the logical multiset; (b) every list of <= {} parameters in every combination of {} per-element spellings (canonical, lower-case hex, needless escape, '+' for space, everything escaped) plus '&&'/leading/trailing '&' at every gap and omitted '='; (c) every byte 0..255 as %XX in both hex cases and every literal char < U+0800 in a name and in a value, every two-character escape over ASCII^2, malformed escapes at every position of three templates; (d) iteration-order exhaustion of the crate's own HashMap for {} queries on worker and fresh OS threads, digests from {} fresh processes; (e) end-to-end acceptance of reference-signed requests for every list of <= 2 parameters on both carriers. states = distinct canonical strings; non-trivial = input differs from its canonical form",
+            "(a) every ordered list of 0..={} parameters over {} names x {} values (all permutations included), compared with the reference canonical string computed from the logical multiset; (b) every list of <= {} parameters in every combination of {} per-element spellings (canonical, lower-case hex, needless escape, '+' for space, everything escaped) plus '&&'/leading/trailing '&' at every gap and omitted '='; (c) every byte 0..255 as %XX in both hex cases and every literal char < U+0800 in a name and in a value, every two-character escape over ASCII^2, malformed escapes at every position of three templates, '%' followed by multi-byte characters; 128 queries of 21..257 parameters over 1, 2, 3 or 8 repeated names in 4 arrival orders, each canonicalised 16 times through fresh maps; (d) iteration-order exhaustion of the crate's own HashMap for {} queries on worker and fresh OS threads, digests from {} fresh processes; (e) end-to-end acceptance of reference-signed requests for every list of <= 2 parameters on both carriers. states = distinct canonical strings; non-trivial = input differs from its canonical form",
             max_len, NAMES.len(), VALUES.len(), resp_len, NVARIANTS, order_queries.len(), nproc
         ),
         bounds: json!({"max_params": max_len, "respelled_params": resp_len, "names": NAMES.len(), "values": VALUES.len()}),
